@@ -486,7 +486,7 @@ class LongPositionVector:
             | ((self.latitude & 0xFFFFFFFF) << 32 * 2)
             | ((self.longitude & 0xFFFFFFFF) << 32)
             | (self.pai << 31)
-            | (self.s << 16)
+            | ((self.s & 0x7FFF) << 16)
             | self.h
         ).to_bytes(24, byteorder="big")
 
@@ -505,7 +505,7 @@ class LongPositionVector:
             | ((self.latitude & 0xFFFFFFFF) << 32 * 2)
             | ((self.longitude & 0xFFFFFFFF) << 32)
             | (int(self.pai) << 31)
-            | (self.s << 16)
+            | ((self.s & 0x7FFF) << 16)
             | self.h
         )
 
@@ -527,7 +527,7 @@ class LongPositionVector:
         latitude = _to_signed((data_as_int >> 32 * 2) & 0xFFFFFFFF, 32)
         longitude = _to_signed((data_as_int >> 32) & 0xFFFFFFFF, 32)
         pai = bool((data_as_int >> 31) & 0x1)
-        s = (data_as_int >> 16) & 0x7FFF
+        s = _to_signed((data_as_int >> 16) & 0x7FFF, 15)
         h = data_as_int & 0xFFFF
         return cls(
             gn_addr=gn_addr,
